@@ -84,7 +84,17 @@ BOOL TerminateProcess(HANDLE h, DWORD code);
 #define GENERIC_WRITE 0x40000000u
 #define FILE_SHARE_READ 1u
 #define FILE_SHARE_WRITE 2u
+#define CREATE_NEW 1u
+#define CREATE_ALWAYS 2u
+#define OPEN_EXISTING 3u
 #define OPEN_ALWAYS 4u
+#define TRUNCATE_EXISTING 5u
+#define FILE_SHARE_DELETE 4u
+#define ERROR_FILE_NOT_FOUND 2
+#define ERROR_PATH_NOT_FOUND 3
+#define ERROR_ACCESS_DENIED 5
+#define DUPLICATE_SAME_ACCESS 2u
+#define FILE_APPEND_DATA 4u
 #define FILE_ATTRIBUTE_NORMAL 0x80u
 #define ERROR_INVALID_HANDLE 6
 #define ERROR_INVALID_PARAMETER 87
